@@ -275,6 +275,23 @@ func c13Probe(t *htree, st *State, m *qmodel, op qop) *qviol {
 	if st.LastHash() != t.hash[m.tail()] {
 		return &qviol{"last-hash-wrong", fmt.Sprintf("after %v", op)}
 	}
+	// membership queries the header handler relies on to announce each block once
+	inR, inT := map[bitcoin.Hash32]bool{}, map[bitcoin.Hash32]bool{}
+	for _, r := range s.Requested {
+		inR[r.Hash] = true
+	}
+	for _, h := range s.ToRequest {
+		inT[h] = true
+	}
+	for i := range t.hash {
+		h := t.hash[i]
+		if st.BlockIsRequested(&h) != inR[h] {
+			return &qviol{"is-requested-wrong", fmt.Sprintf("after %v BlockIsRequested(%d)=%v but requested set membership is %v", op, i, !inR[h], inR[h])}
+		}
+		if st.BlockIsToBeRequested(&h) != inT[h] {
+			return &qviol{"is-to-be-requested-wrong", fmt.Sprintf("after %v BlockIsToBeRequested(%d)=%v", op, i, !inT[h])}
+		}
+	}
 	if st.TotalBlockRequestCount() != len(m.seq) || st.BlocksRequestedCount() != len(s.Requested) {
 		return &qviol{"counts-wrong", fmt.Sprintf("after %v", op)}
 	}
